@@ -52,6 +52,18 @@ T = {
  "C18-2": ("C18", "tree merge steps in byte order instead of path-component order", "a directory X/ next to a sibling X<byte below '/'>…", ["C18"]),
  "C19-1": ("C19", "merge-pass build_plan in byte order", "conf/ next to conf.d/ with differing membership", ["C19"]),
  "C19-2": ("C19", "listing record split on every TAB", "a TAB in a remote name", ["C19","C14","C04"]),
+ "C01-3": ("C01", "async signature() assumes one read() fills the buffer", "a reader that returns short, unaligned reads (pipe, chained reader)", ["C01"]),
+ "C01-4": ("C01", "sync_files returns early on a copy-only delta of equal size", "destination = same-size permutation/repetition of the source's blocks", ["C01"]),
+ "C05-3": ("C05", "patch returns Ok right after validate() when the delta has no ops", "an op-less delta whose checksum is not that of the empty output", ["C05"]),
+ "C05-4": ("C05", "`copia patch` pre-sizes the output file to delta.source_size", "source_size edited upwards with ops and checksum intact", ["C05"]),
+ "C16-3": ("C16", "scan loop bound tightened to '<' (last full window only compared with the basis tail)", "the source's final full window equals a basis block other than the last", ["C16"]),
+ "C16-4": ("C16", "binary search lands inside a run of equal weak keys and only walks forward", "distinct basis blocks sharing a weak checksum", ["C16"]),
+ "C17-3": ("C17", "fold-reduce with too few folds in FastRollingChecksum", "hundreds..thousands of slides on large windows", ["C17"]),
+ "C17-4": ("C17", "RollingChecksum::push single conditional subtraction using the un-reduced a", "the push where a wraps past 65521 while b is within 254 of it", ["C17"]),
+ "C18-3": ("C18", "delete arm compares digests only (drops the entry-type check)", "survivor's type flipped with unchanged digest while the peer deleted", ["C18"]),
+ "C18-4": ("C18", "no base + two different present sides yields Noop", "both present, different, no base", ["C18"]),
+ "C20-3": ("C20", "write_message uses one write_vectored and mis-handles a short first write", "a writer accepting fewer than 12 bytes on the first call", ["C20"]),
+ "C20-4": ("C20", "CLI validates the block size of a .sig as u32 (low half only)", "a .sig whose block-size field is k*2^32 + a valid size", ["C20"]),
  "C20-1": ("C20", "Codec keeps rejected payload bytes in its read buffer", "a bad frame followed by a good frame on the same Codec", ["C20"]),
  "C20-2": ("C20", "async patch copy loop has no end-of-file exit", "a copy range beyond the real end of the basis", ["C05"]),
 }
